@@ -57,6 +57,18 @@ def load_groups():
 
 _ws_cache = {}
 
+# K5: Kani assumes an asserted condition afterwards, so a failed postcondition would hide every
+# postcondition stated behind it in the same harness (often one of ANOTHER property). Harness
+# assertions are therefore checked on one side of an arbitrary branch: each is still reported
+# when it can fail, and the execution goes on behind it either way.
+NONBLOCKING_ASSERT = """#[cfg(kani)]
+#[allow(unused_macros)]
+macro_rules! vassert {
+    ($c:expr $(,)?) => {{ let vassert_c: bool = $c; if kani::any::<bool>() { assert!(vassert_c); } }};
+    ($c:expr, $($m:tt)+) => {{ let vassert_c: bool = $c; if kani::any::<bool>() { assert!(vassert_c, $($m)+); } }};
+}
+"""
+
 
 def prepare_ws(groups):
     """K1-K4: scratch copy, append harness modules, patch crossbeam, drop forbid(unsafe_code)"""
@@ -73,7 +85,8 @@ def prepare_ws(groups):
             return None, 'lost anchor: %s does not exist (harness group %s)' % (g.target, g.name)
         with open(tgt, 'a') as f:
             f.write('\n// ===== appended by /verif (K1): harness group %s =====\n' % g.name)
-            f.write(g.text)
+            f.write(NONBLOCKING_ASSERT)
+            f.write(re.sub(r'(?<![\w:!])assert!\(', 'vassert!(', g.text))
         notes.append('K1 append %s -> %s' % (g.name, g.target))
     with open(os.path.join(ws, 'Cargo.toml'), 'a') as f:
         f.write('\n[patch.crates-io]\ncrossbeam-channel = { path = "%s" }\n' % SHIM)
